@@ -163,9 +163,18 @@ def run_case(case):
         bool(gz[:, a:b_].any()) for a, b_ in ((0, 3), (3, 9), (9, 15), (15, 51)) if a < gz.shape[1])
     r.nontrivial = bool(gz.any()) and ngroups >= 2
     g = torch.tensor(gz)
-    ok, G = lib(torch.autograd.grad, _loss(Z, g, case['permuted_cotangent']), xt)
+    ok, G = lib(torch.autograd.grad, _loss(Z, g, case['permuted_cotangent']), xt, retain_graph=True)
     if not ok:
         return r.fail('backward_raise:' + G.bucket, 'backward raised: %s' % G)
+    # a second cotangent through the same recorded graph (Jacobian rows, several losses): the map g -> grad is linear
+    ok, G2 = lib(torch.autograd.grad, _loss(Z, -2.0 * g, case['permuted_cotangent']), xt)
+    if not ok:
+        return r.fail('second_backward_raise:' + G2.bucket, 'a second backward pass through the same graph raised: %s' % G2)
+    if bool(torch.isfinite(G[0]).all()) and bool(torch.isfinite(G2[0]).all()):
+        d2 = float((G2[0] + 2.0 * G[0]).abs().max())
+        if d2 > 1e-9 * max(float(G[0].abs().max()), 1e-300):
+            return r.fail('second_backward_differs', 'pulling back -2g through the same graph is not -2 x the pull-back of g '
+                          '(max difference %.3g)' % d2)
     grad = G[0]
     if grad is None or grad.shape != xt.shape:
         return r.fail('grad_shape', 'gradient %s for input %s' % (None if grad is None else tuple(grad.shape), tuple(xt.shape)))
